@@ -254,16 +254,12 @@ def reference(stimuli, await_all):
 
 
 def known_trigger(stimuli):
-    """a foreign UPLOADED on a directory for which the own service has an attempt that it has not itself
-    confirmed at that moment"""
-    att, ok = set(), set()
+    """a foreign UPLOADED on a directory for which the own service has an attempt at that moment"""
+    att = set()
     for s in stimuli:
-        if s[0] == "o":
-            if s[1] == "U":
-                att.add(s[2])
-            elif s[1] == "S":
-                ok.add(s[2])
-        elif s[0] == "f" and s[1] == "S" and s[2] in att and s[2] not in ok:
+        if s[0] == "o" and s[1] == "U":
+            att.add(s[2])
+        elif s[0] == "f" and s[1] == "S" and s[2] in att:
             return True
     return False
 
